@@ -1,0 +1,5 @@
+//! Observation hooks for the external verification harness.
+//!
+//! This module only exists with the `verif-hooks` feature, which is off by
+//! default. Nothing in here changes the behaviour of the crate; it only
+//! exposes crate-private information and notification points.
